@@ -246,7 +246,8 @@ META = {
    technique='Coq induction over the walk (log only grows, result is the conjunction of all verdicts) + complete call-log comparison',
    level_text='Proved in Coq for trees of any size: the result of keep-going verification is False iff some handler invocation of the whole scan (including the trailing '
               'missing-directory pass) returned False; no invocation is dropped or short-circuited; within one directory the handler is invoked exactly for the items that do not verify, once each, in order '
-              '(C07_directory_log). PARTIAL: "exactly once per offending path" across the directories of a tree is compared on generated trees (complete ordered call log, model vs /repo).',
+              '(C07_directory_log); over the whole tree every invocation is justified by a failed check of that very path with exactly the differences handed over (C07_only_offending_reported: "for no other path"). '
+              'PARTIAL: that two different directory visits never report one path (distinctness of joined paths) is compared on generated trees (complete ordered call log, model vs /repo).',
    level_note='About Model/Loader.v walk_verify/verify_dir; the lazy-all() defect D1 was repaired in /repo (fix commit) and the model has no laziness.'),
  'C16': dict(engine='coq+tree', design_ref='DESIGN.md section 5 C16',
    technique='Coq termination proof of the walk over arbitrary cyclic inode graphs (pigeonhole on recorded directory identities) + enumeration of small symlink graphs on a real filesystem under a watchdog',
